@@ -84,6 +84,13 @@ def main():
         ok_d, out_d, _ = build.build_driver()
         if not ok_d:
             broken.append(("model-build", "RubatoModel", out_d[-800:]))
+    else:
+        # the source no longer translates: no theorem is checked in this run.  For the SEARCH for a failing input the model
+        # of the last tree that did translate (the committed Generated.lean) is still useful: where the implementation now
+        # departs from it is where to look.  Its observations never decide anything by themselves.
+        build.restore_generated()
+        ok_d, out_d, _ = build.build_driver()
+        notes.append("translator failed: the search used the model generated from the last translatable tree")
     proofs = {"obligations": 0, "discharged": 0, "failed": [], "axioms": {}}
     if ok_tr and ok_d:
         proofs = build.build_proofs(pid, clean=(args.tier == "thorough"))
@@ -137,7 +144,8 @@ def main():
         # a proof obligation or the tie broke and the search found no failing input
         kind, name, detail = broken[0]
         path = write_replay(pid, args.seed, {"broken": kind, "name": name, "detail": detail,
-                                             "all_broken": [(k, n) for k, n, _ in broken]})
+                                             "all_broken": [(k, n) for k, n, _ in broken],
+                                             "first_disagreements": [d for k, n, d in broken if k == "correspondence"][:3]})
         print(f"broken {kind}: {name}")
         print(f"VIOLATION property={pid} replay={path} no-failing-input-found")
         rc = 1
